@@ -641,6 +641,7 @@ func main() {
 	cli.Main(&cli.Property{
 		ID: "C06", Level: "fault_enumeration", Scenarios: scenarios(), Parts: []*cli.Part{tvPart, tsPart},
 		QuickBound: 2, ThoroughBound: 3, QuickUnbounded: true, ThoroughUnbounded: true, Cache: true, QuickSecs: 45, ThoroughSecs: 600,
+		RaceHB: &cli.RaceHB{QuickBound: 1, ThoroughBound: 2},
 		Rule: "H: all histories of TypedValue Get/Has/Set/Delete/Compute(4 compute functions)/Reopen and TypedStore Get/Has/Set/Delete/Iterate/IterateKeys where every operation is additionally run with a fault injected at each position (1st..4th store or codec call of that operation); states merged on (model, real cache contents) to a fixpoint plus an unmerged depth-bounded pass; S: all interleavings of 2-3 concurrent Compute/Set/Delete/Get/Has callers on one TypedValue; distinct = distinct states / observation logs",
 		Assumptions: []string{
 			"the TypedValue under test is the only writer of its key (the cache is not promised to be coherent otherwise)",
